@@ -47,6 +47,14 @@ class Cfg:
         deep = 4
 
 
+class Tight(Cfg):
+    pass
+
+
+class Tighter(Tight):
+    extra = 9
+
+
 class Color(enum.Enum):
     RED = 1
     BLUE = 2
@@ -82,14 +90,30 @@ def not_inlinable(x):
     return y
 '''
 
-CAPTURED_INTS = ("G1", "G2", "c1", "c2", "Cfg.threshold", "Cfg.Inner.deep", "math.e.real.__class__ and 1 or 1")[:6]
+# Tight / Tighter inherit their constants from Cfg: an inherited class constant is a class constant
+CAPTURED_INTS = ("G1", "G2", "c1", "c2", "Cfg.threshold", "Cfg.Inner.deep", "Tight.threshold", "Tighter.Inner.deep", "Tighter.extra")
 HELPERS = (("h1", 1), ("h2", 2), ("ident", 1), ("h3", 1), ("hl", 1), ("hshadow", 1), ("not_inlinable", 1))
 # binder names that collide with captured names.  Names that occur FREE in a helper body (h1, h2 in h3; G2 in hl)
 # or are bound inside one (v in hsel) are kept out: inlining is not capture-avoiding (known finding, see below)
 SHADOW_NAMES = ("G1", "c1", "ident", "x", "a", "q", "Cfg", "e", "e", "j", "t")
 
 
-def gen_body(rng) -> Tuple[str, set]:
+def comp_template(rng) -> str:
+    """comprehensions whose loop variable is spelled like a captured name (closure cell, module global, class): the
+    iterable is evaluated in the ENCLOSING scope (the captured value), the element and the conditions see the loop
+    variable"""
+    t = rng.choice(["G1", "c1", "c2", "x", "G2", "Cfg"])
+    use = f"{t}.threshold" if t == "Cfg" else t
+    it = rng.choice([f"e.nums.Where(lambda n: n > {use} - 30)", f"e.nums.Select(lambda n: n + {use})",
+                     f"e.jets.Where(lambda k: k.pt > {use}).Select(lambda k: k.n)", f"[n * {use} for n in e.nums]",
+                     f"e.nums.Where(lambda {t}: {t} > 1)", "e.nums"])
+    cond = rng.choice(["", f" if {t} > 1", f" if {t} > G2 - 11", f" if {t} > 0 if {t} < 100"])
+    elt = rng.choice([f"{t} + 1", f"{t} * G2", f"h1({t})", f"({t}, 1)[0]"])
+    kind = rng.choice(["[{}]", "[{}]", "Count({})", "Count([{}])"])
+    return kind.format(f"{elt} for {t} in {it}{cond}")
+
+
+def gen_body(rng, focus: str = "") -> Tuple[str, set]:
     opt = Opt(form=rng.choice(["method", "mixed"]), comps=rng.random() < 0.4, comp_rate=0.2,
               naming=rng.choice(["mixed", "reuse", "distinct"]), max_depth=rng.choice([2, 3]),
               captured_ints=CAPTURED_INTS, helpers=HELPERS, extra_binder_names=SHADOW_NAMES,
@@ -104,7 +128,12 @@ def gen_body(rng) -> Tuple[str, set]:
     else:
         body = g.seq_expr(("int",), scope, opt.max_depth)
     extra = rng.random()
-    if extra < 0.08:
+    if focus == "C06" and extra < 0.8 or extra > 0.93:
+        body = f"({body}, {comp_template(rng)})"
+        if rng.random() < 0.3:
+            body = f"({comp_template(rng)}, {body})"
+        g.features.add("comprehension")
+    elif extra < 0.08:
         body = f"({body}, hsel(e.nums, G1 - 4))"
     elif extra < 0.14:
         body = f"({body}, [G1 + G1 for G1 in e.nums if G1 > c1])"
@@ -121,6 +150,19 @@ def gen_body(rng) -> Tuple[str, set]:
                             f"(lambda {v}: {v} + 1)(e.met)"])
         later = rng.choice(["ident(e).met", "(e, G1)[0].run", "h1(ident(e).met)", "Count(ident(e).nums)"])
         body = rng.choice([f"({inner} + {later}, {body})", f"({body}, {inner}, {later})"])
+    elif extra < 0.56:
+        # a parameter of an enclosing lambda used as a bare name inside a nested lambda, where the module has a
+        # global of the same name (e, x, a, q, j, t are all module globals): the parameter must win at every depth
+        v, w = rng.sample(["j", "x", "a", "q", "t"], 2)
+        bare = rng.choice(["ident(e).met", "(e, G1)[0].run", "h1(ident(e).met)", "Count(ident(e).nums)", "[e, e][1].met"])
+        inner = rng.choice([
+            f"e.jets.Select(lambda {v}: {v}.pt + {bare}).Count()",
+            f"e.jets.Where(lambda {v}: {v}.pt > {bare}).Count()",
+            f"e.nums.Select(lambda {v}: e.jets.Where(lambda {w}: {w}.n > {v}).Count() + {v}).Count()",
+            f"e.nums.Select(lambda {v}: e.jets.Select(lambda {w}: ({w}.pt, {v}, {bare})[1]).Count()).Count()",
+            f"(lambda {v}: (lambda {w}: {w} + {v} + {bare})(c1))(G1)",
+        ])
+        body = f"({body}, {inner})"
     return body, g.features
 
 
@@ -244,7 +286,7 @@ def run_cases(ctx, n: int, focus: str):
     rng = ctx.rng
     events = [pyworld.to_world(e) for e in rich_dataset(rng)] + [pyworld.to_world(e) for e in gen_dataset(rng)]
     for _ in range(n):
-        body, feats = gen_body(rng)
+        body, feats = gen_body(rng, focus)
         try:
             mod, text = make_case_module(rng, body)
         except SyntaxError:
